@@ -28,6 +28,8 @@ type HMACAuth struct {
 	Now func() time.Time
 
 	nonce *nonceCache
+	// notBefore refuses signed timestamps older than this instant; see InheritReplayState.
+	notBefore time.Time
 }
 
 func NewHMACAuth(secrets [][]byte) *HMACAuth {
@@ -76,6 +78,9 @@ func (a *HMACAuth) Verify(r *http.Request, requestPath string, body []byte) erro
 		return ErrUnauthorized
 	}
 	t := time.Unix(ts, 0).UTC()
+	if !a.notBefore.IsZero() && t.Before(a.notBefore) {
+		return ErrUnauthorized
+	}
 	if a.Tolerance > 0 {
 		d := now().UTC().Sub(t)
 		if d < -a.Tolerance || d > a.Tolerance {
@@ -132,8 +137,19 @@ func (a *HMACAuth) InheritReplayState(prev *HMACAuth) {
 	if a == nil || prev == nil || prev.nonce == nil {
 		return
 	}
+	a.notBefore = prev.notBefore
 	if a.Tolerance > prev.Tolerance {
 		prev.nonce.extend(a.Tolerance - prev.Tolerance)
+		// Nonces whose window had already closed under the old tolerance may have
+		// been swept and cannot be recognised any more: keep refusing timestamps
+		// that were already stale at the moment the tolerance was raised.
+		now := time.Now
+		if prev.Now != nil {
+			now = prev.Now
+		}
+		if floor := now().UTC().Add(-prev.Tolerance); floor.After(a.notBefore) {
+			a.notBefore = floor
+		}
 	}
 	a.nonce = prev.nonce
 }
